@@ -230,7 +230,7 @@ func run(p Plan) (vk.Outcome, error) {
 			if p.SrcBlockAt > 0 && len(p.FErrAt) > 0 && p.SrcErrAt < 0 {
 				src.BlockAt = p.SrcBlockAt
 			}
-			ctorCtx, ctorCancel := context.WithCancel(context.Background())
+			ctorCtx, ctorCancel := sk.WithCancel(context.Background())
 			defer ctorCancel()
 			if p.CtorCancelled {
 				ctorCancel()
@@ -273,7 +273,7 @@ func run(p Plan) (vk.Outcome, error) {
 					timeout = 0 // be patient after several expired calls, so that the run makes progress
 				}
 				if timeout > 0 {
-					ctx, cancel = context.WithTimeout(ctx, time.Duration(timeout)*time.Millisecond)
+					ctx, cancel = sk.WithTimeout(ctx, time.Duration(timeout)*time.Millisecond)
 				}
 				calls++
 				v, err := ms.Next(ctx)
